@@ -315,7 +315,7 @@ def find_ips(data: bytes) -> list[Node]:
         if ip.endswith((b".0", b".255")):
             continue  # Class C network identifier or broadcast address
         start, end = match.span()
-        prefix = data[start - 1 :: -1]
+        prefix = data[:start][::-1]  # data[start - 1 :: -1] is the whole data reversed when start == 0
         if re.match(rb"\s*>t(?::\w+)?<", prefix):
             continue  # xml section numbering
         if re.match(rb"(?i)\s+(?:noit|[.])ces", prefix):
